@@ -399,3 +399,68 @@ def backtracking_hazards(tree):
 
     walk(list(tree), False)
     return sorted(set(out))
+
+
+_SAMPLE_CHARS = [chr(c) for c in range(32, 127)] + ["\t", "\n", "\u00e9", "\u4e2d"]
+
+
+def _single_char_pred(op, av):
+    if op is sre_c.ANY:
+        return lambda ch: ch != "\n"
+    if op is sre_c.LITERAL:
+        return lambda ch, c=chr(av): ch == c
+    if op is sre_c.NOT_LITERAL:
+        return lambda ch, c=chr(av): ch != c
+    if op is sre_c.IN:
+        return lambda ch, items=av: class_accepts(items, ch)
+    return None
+
+
+def polynomial_degree(tree):
+    """(k, positions): the longest chain R1 .. Rk of unbounded single-character repeats in the top-level sequence (capturing groups
+    looked into) that can all match one common character, with only items that can match the empty string between consecutive ones,
+    and with an item after the chain that can fail (a mandatory item or an end anchor).  On a run of n such characters followed by a
+    mismatch the backtracking matcher tries every way of splitting the run among the k repeats - about n^k / k! - before it gives up
+    (for an anchored match; an unanchored search multiplies by n again).  k <= 1 is linear."""
+    flat = []
+
+    def fl(seq):
+        for op, av in seq:
+            if op is sre_c.SUBPATTERN:
+                fl(av[3])
+            else:
+                flat.append((op, av))
+    fl(list(tree))
+
+    def nullable(op, av):
+        if op in _REPEATS:
+            return av[0] == 0
+        return op is sre_c.AT
+
+    def is_end(op, av):
+        return op is sre_c.AT and av in (sre_c.AT_END, sre_c.AT_END_STRING)
+    best = (0, [])
+    n = len(flat)
+    for i in range(n):
+        chain, preds = [], []
+        j = i
+        while j < n:
+            op, av = flat[j]
+            if op in _REPEATS:
+                lo, hi, sub = av
+                p = _single_char_pred(*sub[0]) if len(sub) == 1 else None
+                if hi is sre_c.MAXREPEAT and p is not None:
+                    if any(p(ch) and all(q(ch) for q in preds) for ch in _SAMPLE_CHARS):
+                        chain.append(j)
+                        preds.append(p)
+                        j += 1
+                        continue
+                    break
+            if nullable(op, av) and not is_end(op, av):
+                j += 1
+                continue
+            break
+        can_fail = any(is_end(*flat[k]) or not nullable(*flat[k]) for k in range(j, n))
+        if chain and can_fail and len(chain) > best[0]:
+            best = (len(chain), chain)
+    return best
